@@ -639,7 +639,7 @@ def bus_loop(chk, prog):
             # every call is on an item of self.signs with the bus's own message
             for c in calls:
                 recv = c[2][0]
-                okr = recv[0] == "ref" and recv[1][0] == "val" and norm(recv[1][1])[0] == "proj" and norm(recv[1][1])[1][0] == "item" and norm(recv[1][1])[1][1] == ("iter", "slice", signs_t)
+                okr = recv[0] == "ref" and recv[1][0] == "val" and norm(recv[1][1])[0] == "proj" and norm(recv[1][1])[1][0] == "item" and norm(recv[1][1])[1][1] in (("iter", "slice", signs_t), ("iter", "slice_mut", signs_t))
                 okm = c[2][1][0] == "ref" and c[2][1][1][0] == "loc"
                 chk.ob("C14.O4", "each sign call is `item of self.signs`.process_message(&message)", okr and okm, key="vbus:call-shape", where=c[4], detail=fmt_term(recv))
             v = p.value
